@@ -10,7 +10,7 @@
 (* log is the host-call log: recording host functions append to it.        *)
 (* A result <<"oneof", v1, v2>> means either value is correct.             *)
 (***************************************************************************)
-EXTENDS FValues, FRegex
+EXTENDS FValues, FRegex, FCalendar, TLC
 
 \* names a formula cannot use for data: a bare name denotes the builtin if there is one
 BuiltinNames == {"now", "toDay", "date", "addDate", "year", "month", "day", "hour", "minute", "second",
@@ -108,6 +108,29 @@ RV(x) == <<"v", x>>
 RU == <<"u">>
 RE == <<"e">>
 
+\* zones with a constant offset over the dates of the models (their names as bytes); names no zone database has
+ZoneOffsets == (<<85,84,67>> :> 0) @@ (<<65,115,105,97,47,83,104,97,110,103,104,97,105>> :> 28800)
+               @@ (<<65,109,101,114,105,99,97,47,80,104,111,101,110,105,120>> :> -25200)      \* UTC, Asia/Shanghai, America/Phoenix
+UnknownZones == { <<77,97,114,115,47,79,108,121,109,112,117,115>>, <<78,111,47,83,117,99,104>> }   \* Mars/Olympus, No/Such
+\* layouts built from 2006 01 02 15 04 05 and separators - / : space T
+TwoDigits(n) == <<48 + ((n \div 10) % 10), 48 + (n % 10)>>
+FourDigits(n) == <<48 + ((n \div 1000) % 10), 48 + ((n \div 100) % 10), 48 + ((n \div 10) % 10), 48 + (n % 10)>>
+RECURSIVE FormatFrom(_, _, _)
+FormatFrom(l, p, f) ==
+  IF p > Len(l) THEN <<TRUE, <<>>>>
+  ELSE LET two == IF p + 1 <= Len(l) THEN <<l[p], l[p + 1]>> ELSE <<>>
+           four == IF p + 3 <= Len(l) THEN SubSeq(l, p, p + 3) ELSE <<>>
+           Rest(k, bs) == LET r == FormatFrom(l, p + k, f) IN <<r[1], bs \o r[2]>>
+       IN IF four = <<50, 48, 48, 54>> THEN (IF f[1] >= 0 /\ f[1] <= 9999 THEN Rest(4, FourDigits(f[1])) ELSE <<FALSE, <<>>>>)
+          ELSE IF two = <<48, 49>> THEN Rest(2, TwoDigits(f[2]))
+          ELSE IF two = <<48, 50>> THEN Rest(2, TwoDigits(f[3]))
+          ELSE IF two = <<49, 53>> THEN Rest(2, TwoDigits(f[4]))
+          ELSE IF two = <<48, 52>> THEN Rest(2, TwoDigits(f[5]))
+          ELSE IF two = <<48, 53>> THEN Rest(2, TwoDigits(f[6]))
+          ELSE IF l[p] \in {45, 47, 58, 32, 84} THEN Rest(1, <<l[p]>>)
+          ELSE <<FALSE, <<>>>>                      \* anything else in a layout: not modelled
+FormatLayout(l, f) == FormatFrom(l, 1, f)
+
 \* a numeric text: [-] digits [. digits] [e [+-] digits] with at least one digit (the literal grammar plus a sign)
 IsNumericText(bs) ==
   LET b == IF Len(bs) > 0 /\ bs[1] = 45 THEN Tail(bs) ELSE bs
@@ -153,6 +176,26 @@ Pure(n, a) ==
                        ELSE RV(Bool(ReMatch(CHOOSE p \in ps : TRUE, a[1][2])))
     [] n = "includes" -> RV(Bool(\E i \in 1..Len(a[1][2]) : a[1][2][i] = a[2]))
     [] n = "join" -> RV(Str(JoinB(a[1][2], a[2][2], 1)))
+    \* dates (C19); the process-local zone of the model is UTC, named zones have fixed offsets
+    [] n = "date" -> IF IsTiny(a[1]) /\ IsTiny(a[2]) /\ IsTiny(a[3]) /\ SmallInt(a[1]) >= 1 /\ SmallInt(a[1]) <= 9999
+                        /\ SmallInt(a[2]) >= -1200 /\ SmallInt(a[2]) <= 1200 /\ SmallInt(a[3]) >= -40000 /\ SmallInt(a[3]) <= 40000
+                     THEN RV(<<"time", NormDays(SmallInt(a[1]), SmallInt(a[2]), SmallInt(a[3])), 0, 0>>) ELSE RU
+    [] n \in {"year", "month", "day", "hour", "minute", "second", "weekDay"} ->
+         LET f == LocalFields(a[1])
+             k == CASE n = "year" -> 1 [] n = "month" -> 2 [] n = "day" -> 3 [] n = "hour" -> 4 [] n = "minute" -> 5
+                    [] n = "second" -> 6 [] n = "weekDay" -> 7
+         IN RV(NumI(f[k]))
+    [] n = "millSecond" -> RV(NumOf(DAddExact(DMulExact(DInt(a[1][2]), DInt(MsPerDay)), DInt(a[1][3]))))
+    [] n = "addDate" ->
+         IF ~(IsTiny(a[2]) /\ IsTiny(a[3]) /\ IsTiny(a[4])) \/ a[1][4] # 0 THEN RU          \* shifting in a zone with rules: not modelled
+         ELSE LET f == LocalFields(a[1])
+                  y == f[1] + SmallInt(a[2])
+              IN IF y < 1 \/ y > 9999 \/ SmallInt(a[3]) < -1200 \/ SmallInt(a[3]) > 1200 \/ SmallInt(a[4]) < -40000 \/ SmallInt(a[4]) > 40000 THEN RU
+                 ELSE RV(OfLocal(NormDays(y, f[2] + SmallInt(a[3]), f[3] + SmallInt(a[4])), f[4] * 3600 + f[5] * 60 + f[6], a[1][3] % 1000, 0))
+    [] n = "useTimezone" ->
+         IF a[2][2] \in DOMAIN ZoneOffsets THEN RV(<<"time", a[1][2], a[1][3], ZoneOffsets[a[2][2]]>>)
+         ELSE IF a[2][2] \in UnknownZones THEN RE ELSE RU
+    [] n = "timeFormat" -> LET r == FormatLayout(a[2][2], LocalFields(a[1])) IN IF r[1] THEN RV(Str(r[2])) ELSE RU
     \* numbers (C18)
     [] n = "abs" -> RV(NumOf(DAbs(DecOf(a[1]))))
     \* conversions (C18)
